@@ -12,7 +12,7 @@ git -C /repo worktree add -q --detach "$wt" HEAD >>"$log" 2>&1 || { echo "VERDIC
 cleanup() { git -C /repo worktree remove --force "$wt" >/dev/null 2>&1; rm -rf "$wt"; }
 trap cleanup EXIT
 cp /repo/Cargo.lock "$wt/" 2>/dev/null
-place=$(head -3 "$src/demo.rs" | grep -o 'crates/[A-Za-z0-9_/]*\.rs' | head -1)
+place=$(head -3 "$src/demo.rs" | grep -o 'crates/[A-Za-z0-9_/-]*\.rs' | head -1)
 pkg=$(echo "$place" | cut -d/ -f2)
 tname=$(basename "$place" .rs)
 echo "place=$place pkg=$pkg test=$tname" >>"$log"
